@@ -41,6 +41,22 @@ EXIT_TABLE = {
          ['Story::evaluate_function']),
     ('Story::load_state', '?StoryState::load_json'):
         ('fault', 'failed loads are governed by C15 (story can be reset afterwards)'),
+    ('Story::cont', '?Story::get_current_text'):
+        ('fault', 'get_current_text fails only while a time-limited continue is unfinished, and cont has just finished '
+         'one without a limit (continue_internal clears async_continue_active when the limit is 0)'),
+    ('Story::evaluate_function', '?StoryState::complete_function_evaluation_from_game'):
+        ('fault', 'a story fault found when the function returns (wrong frame on the call stack), not a rejection'),
+    ('StoryState::complete_function_evaluation_from_game', '?CallStack::pop'):
+        ('fault', 'a story fault found when the function returns (wrong frame on the call stack), not a rejection'),
+    ('StoryState::write_json', '?Flow::write_json'):
+        ('fault', 'saving fails only on an object that cannot be serialised (an internal fault, not a bad argument); the '
+         'only write is Choice::original_thread_index, which every save recomputes'),
+    ('StoryState::write_json', '?VariablesState::write_json'):
+        ('fault', 'as above: serialisation fault; only Choice::original_thread_index was written'),
+    ('StoryState::write_json', '?json_write::write_list_rt_objs'):
+        ('fault', 'as above: serialisation fault; only Choice::original_thread_index was written'),
+    ('Flow::write_json', '?Thread::write_json'):
+        ('fault', 'as above: serialisation fault; only Choice::original_thread_index was written'),
 }
 
 SURFACE = ['Story::choose_choice_index', 'VariablesState::set', 'Story::set_variable', 'Story::choose_path_string',
@@ -158,7 +174,9 @@ def run(chk, prog):
         g = cfg(f)
         wb = wbf.write_blocks(f)
         for r in wbf.analyse(f):
-            if r['src']:
+            ent0 = EXIT_TABLE.get((f.short, r['exit']))
+            if r['src'] and not (ent0 and ent0[0] in ('fault', 'ctor', 'generated')):
+                # (an exit the table gives to another contract - story faults, failed loads - is not followed further)
                 h = prog.fns.get(callee(r['src'][1]))
                 if h is not None and d < 5 and h.short not in BOUNDARY:
                     work.append((h, d + 1))
@@ -268,6 +286,75 @@ def run(chk, prog):
                            '%s) instead of the offered list: an index just past the offered choices silently selects a '
                            'hidden fallback choice instead of being refused'
                            % sorted(a for a in rp if a.startswith(('call:', 'via:', 'field:')))[:4], gfn.loc(bb))
+
+    # ---- 2c. the binding-validation flag is a cache of (bindings, fallback setting)
+    R5 = 'C09.binding-validation-is-a-cache'
+    chk.rule(R5, 'Story::has_validated_externals is set before continue_internal can refuse ("can\'t continue"), so a '
+             'refused continue leaves it set. That is harmless only if the flag is a pure function of the binding table '
+             'and the fallback setting: every function that removes from Story::externals or assigns '
+             'Story::allow_external_function_fallbacks assigns has_validated_externals = false on every path from that '
+             'write to its return.')
+    from analysis.facts import tyname
+    nmut = 0
+    for f in sorted(prog.fns.values(), key=lambda x: x.p):
+        if f.crate != 'bladeink' or (prog.root_fn(f).self_adt or '').rsplit('::', 1)[-1] != 'Story':
+            continue
+        mut_blocks, reset_blocks = [], []
+        for bb, t in f.calls():
+            nm = callee_short(t).rsplit('::', 1)[-1]
+            if nm in ('remove', 'clear', 'retain', 'drain', 'remove_entry') and t['args'] \
+                    and 'field:Story::externals' in tr.prov(f, t['args'][0]):
+                mut_blocks.append(bb)
+        for bb, si, st in f.stmts():
+            if st['k'] != 'assign' or 'p' not in st['pl']:
+                continue
+            last = st['pl']['p'][-1]
+            if last['k'] == 'field' and tyname(last.get('adt', '')) == 'Story':
+                if last['n'] == 'allow_external_function_fallbacks':
+                    mut_blocks.append(bb)
+                elif last['n'] == 'has_validated_externals' and st['rv']['k'] == 'use' \
+                        and st['rv']['op'].get('k') == 'const' and st['rv']['op'].get('bool') is False:
+                    reset_blocks.append(bb)
+        if f.short == 'Story::new':
+            continue        # constructor: the flag starts false
+        g = cfg(f)
+        for i, mb in enumerate(mut_blocks):
+            nmut += 1
+            rets = [b for b, t in f.terms() if t['k'] == 'return']
+            escaped = [r for r in rets if r in g.reachable([mb], avoid=[x for x in reset_blocks if x != mb])
+                       and mb not in reset_blocks]
+            chk.decide(R5, chk.key(R5, f.short, '#%d' % i), not escaped,
+                       'the validation flag is cleared on every path after this change of the bindings / fallback setting',
+                       '%s changes which externals are bound (or whether a fallback is acceptable) and can return without '
+                       'clearing has_validated_externals: the next continue skips validation and an unbound external '
+                       'ends the story with a runtime error instead of being refused up front' % f.short, f.loc(mb))
+    chk.floor(R5, 'functions that unbind externals or change the fallback setting', nmut, 2)
+
+    # ---- 2d. the index a choice is saved with is fixed when the choice is generated
+    R6 = 'C09.choice-index-fixed-at-generation'
+    chk.rule(R6, 'Story::get_current_choices (also called by a refused choose_choice_index) rewrites Choice::index; the '
+             'index is part of the save. The rewrite changes nothing only if the index was already right: the function '
+             'that adds a generated choice to the flow\'s list assigns Choice::index before the push.')
+    lt6 = Tracer(prog, transparent=lambda cs: True, use_summaries=False)
+    pushes = []
+    for f in sorted(prog.fns.values(), key=lambda x: x.p):
+        if f.crate != 'bladeink':
+            continue
+        for bb, t in f.calls():
+            if callee_short(t) == 'Vec::push' and t['args'] and \
+                    any('get_generated_choices_mut' in a for a in lt6.prov(f, t['args'][0])):
+                pushes.append((f, bb))
+    if chk.anchor(R6, 'push of a generated choice', pushes):
+        for i, (f, bb) in enumerate(pushes):
+            g = cfg(f)
+            idx_blocks = [b for b, t in f.calls() if callee_short(t) in ('RefCell::replace', 'Cell::set', 'Cell::replace')
+                          and t['args'] and 'field:Choice::index' in tr.prov(f, t['args'][0])]
+            ok = bool(idx_blocks) and bb not in g.reachable([0], avoid=idx_blocks)
+            chk.decide(R6, chk.key(R6, prog.root_fn(f).short, '#%d' % i), ok,
+                       'Choice::index is assigned on every path to the push',
+                       '%s adds a generated choice without assigning its index first: the index in a save then depends '
+                       'on whether get_current_choices (or a refused choose_choice_index) was called before saving'
+                       % prog.root_fn(f).short, f.loc(bb))
 
     # ---- 3. pairing
     check_count_pairing(chk, prog, tr, R3)
